@@ -235,6 +235,11 @@ func (e *Env) Log(ev Event) {
 		e.mu.Unlock()
 		return
 	}
+	if len(e.events) >= 200000 {
+		// a request loop without waiting: stop recording, the watchdog reports the bubble that never becomes idle
+		e.mu.Unlock()
+		return
+	}
 	ev["t"] = e.T()
 	e.events = append(e.events, ev)
 	e.mu.Unlock()
